@@ -77,6 +77,8 @@ type Trans struct {
 	evalTerms []string
 	trustedUsed map[string]bool
 	underContract map[string]bool
+	reqOld   *State
+	pendingFinals map[int]string
 }
 
 func NewTrans(P *Prog) *Trans {
@@ -228,6 +230,7 @@ type Frame struct {
 	st       State // running state while executing a block
 	bytearr  map[ssa.Value]bool
 	gmaps    map[ssa.Value]*ssa.Global
+	fvFinal  map[int]string // free variable index -> value (effectively final captures)
 }
 
 type dbgRef struct {
@@ -240,6 +243,7 @@ type dbgRef struct {
 type closureInfo struct {
 	fn       *ssa.Function
 	bindings []string
+	finals   map[int]string
 }
 
 func (t *Trans) newFrame(fn *ssa.Function, args []string, path string) *Frame {
@@ -249,7 +253,7 @@ func (t *Trans) newFrame(fn *ssa.Function, args []string, path string) *Frame {
 		reach: map[*ssa.BasicBlock]string{}, outState: map[*ssa.BasicBlock]State{},
 		edge: map[[3]int]string{}, args: args, loops: map[*ssa.BasicBlock]*loopRec{},
 		backEdge: map[[2]int]bool{}, dbg: map[string][]dbgRef{}, ghosts: map[string]string{},
-		closures: map[ssa.Value]*closureInfo{}, bytearr: map[ssa.Value]bool{}, gmaps: map[ssa.Value]*ssa.Global{}}
+		closures: map[ssa.Value]*closureInfo{}, bytearr: map[ssa.Value]bool{}, gmaps: map[ssa.Value]*ssa.Global{}, fvFinal: map[int]string{}}
 	for i, p := range fn.Params {
 		if i < len(args) {
 			fr.vals[p] = args[i]
@@ -560,6 +564,9 @@ func (fr *Frame) lookupVar(name string, at *ssa.BasicBlock, st State, phiOverrid
 		if fv.Name() == name && i < len(fr.freeVars) {
 			// free variables are pointers to the captured variable
 			pt := fv.Type().(*types.Pointer).Elem()
+			if v, ok := fr.fvFinal[i]; ok {
+				return v, pt, true
+			}
 			return fr.t.loadFrom(fr, nil, fr.freeVars[i], pt, st), pt, true
 		}
 	}
@@ -824,7 +831,7 @@ func (t *Trans) modifiesFor(c *Contract, comp string, sc *SpecCtx, rv string) (c
 	_, compIsGhost := t.P.ghostComps[comp]
 	for _, it := range c.Modifies {
 		if it.IsAtom() {
-			if it.Atom == comp || it.Atom == "everything" || (it.Atom == "ghost*" && compIsGhost) || (it.Atom == "heap*" && !compIsGhost) {
+			if it.Atom == comp || it.Atom == "everything" || (it.Atom == "ghost*" && compIsGhost) || (it.Atom == "heap*" && !compIsGhost) || (it.Atom == "docheap*" && isDocHeapComp(t.env, comp)) {
 				return nil, true
 			}
 			continue
